@@ -1,8 +1,12 @@
 (* Model of the UDP side of socks5_forwarder.rs together with the flow table of udp_pipe.rs: towards a
    SOCKS5 upstream every client source address has one association (control connection + relay socket)
    shared by all destinations that source talks to; the association remembers its peers and is dropped
-   when the last of them is closed. [records] = SOCKS_ASSOCIATION_RECORDS_EVERY_PEER: a further
-   destination of a known source is added to the association's peers. *)
+   when the last of them is closed. What the translator read in the code comes in as flags:
+   [f_records] = SOCKS_ASSOCIATION_RECORDS_EVERY_PEER: a further destination of a known source is added to the
+   association's peers; [f_keyed] = SOCKS_READ_ERROR_CLOSES_THE_FLOWS: a failed read drops the association and reports
+   its flows closed under the key the pipe knows them by; [f_drops] = SOCKS_SEND_ERROR_DROPS_DATAGRAM: a failed send
+   costs the datagram only; [f_beside] = UDP_TICK_RUNS_BESIDE_THE_DIRECTIONS: the expiry timer does not drop the
+   direction that is setting a flow up (towards a SOCKS5 server that is a TCP connect and a dialogue, a real await). *)
 From Coq Require Import List NArith Bool.
 Import ListNotations.
 Open Scope N_scope.
@@ -37,23 +41,54 @@ Definition del_peer (d : N) (ps : list N) : list N := filter (fun p => negb (p =
 
 Inductive kop :=
 | KDgram (f : flow)          (* a client datagram on the pair: LeftPipe::on_udp_packet, then DatagramSink::write *)
-| KClose (f : flow).         (* the pair is closed (idle expiry, answered DNS flow): on_connection_closed *)
+| KClose (f : flow)          (* the pair is closed (idle expiry, answered DNS flow): on_connection_closed *)
+| KRefused (f : flow)        (* a client datagram whose send on the association's socket fails (the relay's port is closed) *)
+| KReadErr (src : N)         (* reading from the socket of this source's association fails (refused, malformed packet) *)
+| KCut (f : flow).           (* a client datagram, and the expiry timer fires while its flow is being set up *)
 
-Definition kstep (records : bool) (s : kstate) (o : kop) : kstate :=
+Record kflags := { f_records : bool; f_keyed : bool; f_drops : bool; f_beside : bool }.
+
+Definition kdie (s : kstate) : kstate := {| k_flows := k_flows s; k_assocs := k_assocs s; k_dead := true |}.
+
+(* LeftPipe::on_udp_packet with on_new_udp_connection: an unknown pair is recorded; its source gets an association, or one more peer *)
+Definition kopen (records : bool) (s : kstate) (src dst : N) : kstate :=
+  if mem_flow (src, dst) (k_flows s) then s
+  else {| k_flows := (src, dst) :: k_flows s;
+          k_assocs := match klookup src (k_assocs s) with
+                      | Some ps => if records then kset src (dst :: ps) (k_assocs s) else k_assocs s
+                      | None => kset src [dst] (k_assocs s)
+                      end;
+          k_dead := false |}.
+
+(* DatagramSink::write: no association for the source ends the multiplexer; [sent] = send_to succeeded *)
+Definition kwrite (drops sent : bool) (s : kstate) (src : N) : kstate :=
+  match klookup src (k_assocs s) with
+  | Some _ => if sent || drops then s else kdie s
+  | None => kdie s
+  end.
+
+Definition is_some {A} (o : option A) : bool := match o with Some _ => true | None => false end.
+
+Definition kstep (fl : kflags) (s : kstate) (o : kop) : kstate :=
   if k_dead s then s else
   match o with
-  | KDgram (src, dst) =>
-    let s1 :=
-      if mem_flow (src, dst) (k_flows s) then s
-      else {| k_flows := (src, dst) :: k_flows s;
-              k_assocs := match klookup src (k_assocs s) with
-                          | Some ps => if records then kset src (dst :: ps) (k_assocs s) else k_assocs s
-                          | None => kset src [dst] (k_assocs s)
-                          end;
-              k_dead := false |} in
-    match klookup src (k_assocs s1) with
-    | Some _ => s1
-    | None => {| k_flows := k_flows s1; k_assocs := k_assocs s1; k_dead := true |}
+  | KDgram (src, dst) => kwrite (f_drops fl) true (kopen (f_records fl) s src dst) src
+  | KRefused (src, dst) => kwrite (f_drops fl) false (kopen (f_records fl) s src dst) src
+  | KCut (src, dst) =>
+    (* only the set-up of a new association waits; when the timer drops the direction there, the pair stays recorded without one *)
+    if f_beside fl || mem_flow (src, dst) (k_flows s) || is_some (klookup src (k_assocs s))
+    then kwrite (f_drops fl) true (kopen (f_records fl) s src dst) src
+    else {| k_flows := (src, dst) :: k_flows s; k_assocs := k_assocs s; k_dead := false |}
+  | KReadErr src =>
+    match klookup src (k_assocs s) with
+    | None => s
+    | Some ps =>
+      (* on_socket_error: one UdpClose per peer; RightPipe removes the entries with exactly those keys *)
+      {| k_flows := if f_keyed fl
+                    then filter (fun f => negb ((fst f =? src) && existsb (N.eqb (snd f)) ps)) (k_flows s)
+                    else k_flows s;
+         k_assocs := kremove src (k_assocs s);
+         k_dead := false |}
     end
   | KClose (src, dst) =>
     if mem_flow (src, dst) (k_flows s) then
@@ -69,4 +104,4 @@ Definition kstep (records : bool) (s : kstate) (o : kop) : kstate :=
     else s
   end.
 
-Definition krun (records : bool) (ops : list kop) : kstate := fold_left (kstep records) ops k0.
+Definition krun (fl : kflags) (ops : list kop) : kstate := fold_left (kstep fl) ops k0.
